@@ -168,6 +168,8 @@ class Gen:
             for _ in range(rng.randrange(0, 3)):
                 p.contains.append(self.subprogram(p, 1))
             units.insert(rng.randrange(0, len(units) + 1) if rng.random() < 0.3 else len(units), p)
+            # a main program without PROGRAM statement (only as the last unit: nothing after it would be read)
+            p.headless = units[-1] is p and rng.random() < 0.25
         # modules must precede their users only for our own bookkeeping (fparser does not care): keep order
         return units
 
@@ -225,7 +227,8 @@ def render(units):
         head = {"module": "module %s", "program": "program %s", "sub": "subroutine %s()", "func": "function %s()"}[sc.kind]
         tail = {"module": "end module %s", "program": "end program %s", "sub": "end subroutine %s",
                 "func": "end function %s"}[sc.kind]
-        out.append(ind + head % sc.name)
+        if not getattr(sc, "headless", False):
+            out.append(ind + head % sc.name)
         spec(sc, ind + "  ")
         if sc.kind != "module":
             body(sc.body, ind + "  ")
@@ -233,7 +236,7 @@ def render(units):
             out.append(ind + "contains")
             for c in sc.contains:
                 unit(c, ind + "  ")
-        out.append(ind + tail % sc.name)
+        out.append(ind + (tail % sc.name if not getattr(sc, "headless", False) else ("end", "end program")[len(out) % 2]))
 
     for u in units:
         unit(u, "")
@@ -250,7 +253,8 @@ def expected_tables(units):
 
     def tab(sc):
         kids = [tab(b) for b in blocks(sc.body)] + [tab(c) for c in sc.contains]
-        return ("block" if sc.kind == "block" else sc.name, sorted(set(sc.decl + sc.plain + ["x"])),
+        return ("block" if sc.kind == "block" else ("fparser2:main_program" if getattr(sc, "headless", False) else sc.name),
+                sorted(set(sc.decl + sc.plain + ["x"])),
                 sorted((m, None if only is None else sorted(local_name(o) for o in only))
                        for m, only in merge_uses(list(sc.uses) + [(m2, None) for m2, _ in getattr(sc, "renames", [])])), kids)
     return [tab(u) for u in units]
@@ -318,9 +322,12 @@ def check_one(arg):
     for n in fp.utils.walk(o.tree, fp.F3.Intrinsic_Function_Reference):
         intr.add(str(n).lower().replace(" ", ""))
     text = str(o.tree).lower().replace(" ", "")
+    headless_after_units = len(units) > 1 and getattr(units[-1], "headless", False)
     for name, tag, shadowed in g.refs:
         key = ref_text(name, tag).replace(" ", "")
         if key not in text:
+            if headless_after_units:
+                continue      # recorded finding F5 (C02): the units in front of an implicit main program are not in the tree
             fails.append(("reference_lost", "reference %s missing from the printed tree" % key, rep))
             continue
         is_intr = key in intr
